@@ -12,6 +12,7 @@ fi
 python3 tools/gen_schema.py coq/sch/Schema.v coq/sch/ChildFacts.v
 python3 tools/gen_codec.py coq/sch/Codec.v
 python3 tools/gen_ocaml.py ocaml/schema_conv.ml
+python3 tools/gen_zoo.py harness/zoo_gen.go
 cp /repo/go.sum harness/go.sum
 (cd harness && go build -tags verif -o ../.work/implrun .)
 .work/implrun srcfacts 0 0 .work/srcfacts
